@@ -376,7 +376,10 @@ class P:
         self.expect("(")
         out = []
         while not self.at(")"):
-            out.append(self.expr()); self.eat(",")
+            a = self.expr()
+            if self.eat(".."):      # a range as an argument (`v.drain(a..b)`, `s.get_unchecked(a..b)`)
+                a = ("range", a, None if self.at(")") or self.at(",") else self.expr())
+            out.append(a); self.eat(",")
         self.expect(")")
         return out
 
@@ -424,7 +427,9 @@ class P:
             while not self.at("]"):
                 items.append(self.expr())
                 if self.eat(";"):
-                    raise ParseError("array repeat expression")
+                    n = self.expr()
+                    self.expect("]")
+                    return ("arrayrep", items[0], n)
                 self.eat(",")
             self.expect("]")
             return ("array", items)
